@@ -308,7 +308,8 @@ package flags
 //@ func (p *Parser) parseLong(s *parseState, name string, argument *string) (err error)
 //@   props C01 C02 C04 C07
 //@   traced
-//@   requires p != nil && s != nil
+//@   requires p != nil && s != nil && longOK(s.lookup.longNames)
+//@   ensures[C07] s.lookup.longNames[name] != nil ==> longNameOf(s.lookup.longNames[name]) == name
 //@   ensures[C07,C04] s.lookup.longNames[name] == nil ==> isTyped(err, ErrUnknownFlag) && ncalls(Option.Set) == old(ncalls(Option.Set)) && same(s.args, old(s.args)) && s.arg == old(s.arg)
 //@   like Parser.parseOption(p, s, name, s.lookup.longNames[name], !s.lookup.longNames[name].OptionalArgument, argument) when s.lookup.longNames[name] != nil
 //@   assigns s.arg, s.args, Option.isSet, Option.preventDefault, Option.clearReferenceBeforeSet
@@ -331,7 +332,7 @@ package flags
 //@   props C01 C02 C04 C07
 //@   traced
 //@   nomerge
-//@   requires p != nil && s != nil
+//@   requires p != nil && s != nil && shortOK(s.lookup.shortNames)
 //@   let on := ite(argument == nil, fst(p.splitShortConcatArg(s, optname)), optname)
 //@   let a := ite(argument == nil, snd(p.splitShortConcatArg(s, optname)), argument)
 //@   let n0 := ncalls(Option.Set)
@@ -349,31 +350,37 @@ package flags
 //@   ensures[C02] a == nil && err == nil && forall(j, 0, nrunes(on), isFlag(shortOpt(s, on, j))) ==> forall(j, 0, nrunes(on), callarg(Option.Set, n0 + j, 0) == shortOpt(s, on, j) && callarg(Option.Set, n0 + j, 1) == nil)
 //@   ensures[C04] err != nil ==> is(err, *Error) && as(err, *Error) != nil
 //@   ensures[C03] len(s.args) <= len(old(s.args))
+//@   ensures[C07] len(on) > 0 && shortOpt(s, on, 0) != nil ==> string(shortOpt(s, on, 0).ShortName) == string(runeAt(on, 0))
 //@   assigns s.arg, s.args, Option.isSet, Option.preventDefault, Option.clearReferenceBeforeSet
 
 // ===================================================================
 // command.go / parser.go: commands, positionals, output
 // ===================================================================
 
-//@ assumed func (c *Command) makeLookup() (r lookup)
-//@   pure
+// The tables of the parse state answer exactly: an entry filed under a name is
+// an option with that (namespaced) long name / that short name, or a
+// subcommand of the current command that answers to that word.
+//@ pure func lookupOK(s *parseState) bool = longOK(s.lookup.longNames) && shortOK(s.lookup.shortNames) && forall(w, string, s.lookup.commands[w] != nil ==> subOf(s.lookup.commands[w], s.command) && answersTo(s.lookup.commands[w], w))
 
 //@ func (c *Command) fillParseState(s *parseState)
-//@   props C08 C10 C04
-//@   requires c != nil && s != nil
+//@   props C07 C08 C10 C04
+//@   requires c != nil && s != nil && use(wf_cmd, c)
 //@   ensures[C08] s.command == c && s.lookup == c.makeLookup()
+//@   ensures[C07,C08] lookupOK(s)
 //@   ensures[C10] len(s.positional) == len(c.args) && forall(i, 0, len(c.args), s.positional[i] == c.args[i])
 //@   assigns s.positional, s.lookup, s.command
 
 //@ func (p *Parser) parseNonOption(s *parseState) (err error)
 //@   props C03 C08 C10 C04
-//@   requires s != nil && s.command != nil
+//@   requires s != nil && s.command != nil && lookupOK(s)
 //@   let cmd := s.lookup.commands[s.arg]
 //@   let sel := len(s.positional) == 0 && len(s.command.commands) > 0 && len(s.retargs) == 0
 //@   let c0 := s.command
 //@   ensures[C08] sel && cmd != nil ==> err == nil && c0.Active == cmd && s.command == cmd && s.lookup == cmd.makeLookup() && same(s.retargs, old(s.retargs)) && s.err == old(s.err)
 //@   ensures[C08,C10] sel && cmd != nil ==> len(s.positional) == len(cmd.args) && forall(i, 0, len(cmd.args), s.positional[i] == cmd.args[i])
 //@   ensures[C08] sel && cmd != nil ==> ncalls(convert) == old(ncalls(convert))
+//@   ensures[C08] sel && cmd != nil ==> subOf(cmd, c0) && answersTo(cmd, s.arg)
+//@   ensures[C07,C08] lookupOK(s)
 //@   ensures[C08,C04] sel && cmd == nil && !c0.SubcommandsOptional ==> isTyped(err, ErrUnknownCommand)
 //@   like[C03,C10] parseState.addArgs(s, []string{s.arg}) when !sel || (cmd == nil && c0.SubcommandsOptional)
 //@   like[C03,C10] parseState.addArgs(s, []string{s.arg}) noresult when sel && cmd == nil && !c0.SubcommandsOptional
@@ -446,7 +453,7 @@ package flags
 //@   let pl0 := ncalls(Parser.parseLong)
 //@   let ps0 := ncalls(Parser.parseShort)
 //@   let compl := os.Getenv("GO_FLAGS_COMPLETION") != ""
-//@   loop 2 invariant s != nil && s.command != nil
+//@   loop 2 invariant s != nil && s.command != nil && lookupOK(s)
 //@   loop 2 invariant is(s.err, *Error) ==> as(s.err, *Error) != nil
 //@   loop 2 invariant forall(k, old(ncalls(Parser.parseLong)), ncalls(Parser.parseLong), okResult(p, callres(Parser.parseLong, k, 0)))
 //@   loop 2 invariant forall(k, old(ncalls(Parser.parseShort)), ncalls(Parser.parseShort), okResult(p, callres(Parser.parseShort, k, 0)))
@@ -476,10 +483,12 @@ package flags
 //@   props C08 C16 C20 C04
 //@   requires c != nil
 //@   loop 1 invariant len(ret) <= idx_1 && forall(i, 0, len(ret), ret[i] != nil && !ret[i].Hidden)
+//@   loop 1 invariant (idx_1 < len(c.commands) ==> use(wf_sub, c, idx_1)) && forall(i, 0, len(ret), subOf(ret[i], c))
 //@   loop 1 invariant forall(i, 0, len(ret), exists(j, 0, idx_1, ret[i] == c.commands[j]))
 //@   loop 1 invariant forall(j, 0, idx_1, !c.commands[j].Hidden ==> exists(i, 0, len(ret), ret[i] == c.commands[j]))
 //@   ensures[C16,C20] forall(i, 0, len(r), r[i] != nil && !r[i].Hidden)
 //@   ensures[C16,C20] forall(i, 0, len(r), exists(j, 0, len(c.commands), r[i] == c.commands[j]))
+//@   ensures[C08,C16,C20] forall(i, 0, len(r), subOf(r[i], c))
 //@   ensures[C16,C20] forall(j, 0, len(c.commands), !c.commands[j].Hidden ==> exists(i, 0, len(r), r[i] == c.commands[j]))
 //@   assigns nothing
 
@@ -499,7 +508,7 @@ package flags
 //@   props C08 C16 C20 C15 C04
 //@   requires c != nil
 //@   ensures[C16,C20] forall(i, 0, len(r), r[i] != nil && !r[i].Hidden)
-//@   ensures[C16,C20] forall(i, 0, len(r), exists(j, 0, len(c.commands), r[i] == c.commands[j]))
+//@   ensures[C08,C16,C20] forall(i, 0, len(r), subOf(r[i], c))
 //@   ensures[C16,C20] forall(j, 0, len(c.commands), !c.commands[j].Hidden ==> exists(i, 0, len(r), r[i] == c.commands[j]))
 //@   ensures[C15,C20] forall(i, 0, len(r), forall(j, i, len(r), r[i].Name <= r[j].Name))
 //@   assigns nothing
@@ -538,4 +547,73 @@ package flags
 //@   loop 2 decreases ite(g == nil, 0, gdepth(g) + 1)
 //@   ensures[C07,C08,C13] len(option.LongName) == 0 ==> r == ""
 //@   ensures[C07,C08,C13] len(option.LongName) != 0 ==> r == nsName(option.group, parserOf(option.group).NamespaceDelimiter, option.LongName)
+//@   assigns nothing
+
+// ===================================================================
+// command.go: lookup tables
+// ===================================================================
+
+//@ pure func longNameOf(o *Option) string = nsName(o.group, parserOf(o.group).NamespaceDelimiter, o.LongName)
+// Every entry is filed under exactly the name it answers to.
+//@ pure func longOK(m map[string]*Option) bool = forall(k, string, m[k] != nil ==> m[k].LongName != "" && longNameOf(m[k]) == k)
+//@ pure func shortOK(m map[string]*Option) bool = forall(k, string, m[k] != nil ==> m[k].ShortName != 0 && string(m[k].ShortName) == k)
+// o is an option of one of the groups of command c (its own group tree).
+//@ pure func optionOf(o *Option, c *Command) bool = exists(j, 0, iterlen(Group.eachGroup, c.Group), exists(i, 0, len(iterelem(Group.eachGroup, c.Group, j, 0).options), iterelem(Group.eachGroup, c.Group, j, 0).options[i] == o))
+// sub answers to the word w: w is its name or one of its aliases.
+//@ assumed func answersTo(sub *Command, w string) (r bool)
+//@   pure
+//@ axiom manual answers_def: forall sub *Command, w string :: answersTo(sub, w) == (sub.Name == w || exists(a, 0, len(sub.Aliases), sub.Aliases[a] == w))
+// sub is a subcommand of c. Trusted well-formedness (AddCommand sets the parent
+// of every command it appends): the elements of c.commands have c as parent.
+//@ pure func subOf(sub *Command, c *Command) bool = sub != nil && is(sub.parent, *Command) && as(sub.parent, *Command) == c
+//@ axiom manual wf_sub: forall c *Command, i int :: c != nil && 0 <= i && i < len(c.commands) ==> subOf(c.commands[i], c)
+
+//@ func (c *Command) fillLookup(ret *lookup, onlyOptions bool)
+//@   props C07 C08 C04
+//@   requires c != nil && ret != nil && !isnil(ret.shortNames) && !isnil(ret.longNames) && !isnil(ret.commands)
+//@   loop 1 invariant !isnil(ret.shortNames) && !isnil(ret.longNames) && same(ret.commands, old(ret.commands))
+//@   loop 1 invariant longOK(old(ret.longNames)) ==> longOK(ret.longNames)
+//@   loop 1 invariant shortOK(old(ret.shortNames)) ==> shortOK(ret.shortNames)
+//@   loop 1 invariant forall(k, string, ret.longNames[k] == old(ret.longNames)[k] || optionOf(ret.longNames[k], c))
+//@   loop 1 invariant forall(k, string, ret.shortNames[k] == old(ret.shortNames)[k] || optionOf(ret.shortNames[k], c))
+//@   loop 2 invariant !isnil(ret.shortNames) && !isnil(ret.longNames) && same(ret.commands, old(ret.commands))
+//@   loop 2 invariant longOK(old(ret.longNames)) ==> longOK(ret.longNames)
+//@   loop 2 invariant shortOK(old(ret.shortNames)) ==> shortOK(ret.shortNames)
+//@   loop 2 invariant forall(k, string, ret.longNames[k] == old(ret.longNames)[k] || optionOf(ret.longNames[k], c))
+//@   loop 2 invariant forall(k, string, ret.shortNames[k] == old(ret.shortNames)[k] || optionOf(ret.shortNames[k], c))
+//@   loop 3 invariant !isnil(ret.commands) && (idx_3 < len(c.commands) ==> use(wf_sub, c, idx_3) && use(answers_def, c.commands[idx_3], c.commands[idx_3].Name))
+//@   loop 3 invariant forall(w, string, ret.commands[w] == old(ret.commands)[w] || (subOf(ret.commands[w], c) && answersTo(ret.commands[w], w)))
+//@   loop 4 invariant !isnil(ret.commands) && subOf(subcommand, c) && (idx_4 < len(subcommand.Aliases) ==> use(answers_def, subcommand, subcommand.Aliases[idx_4]))
+//@   loop 4 invariant forall(w, string, ret.commands[w] == old(ret.commands)[w] || (subOf(ret.commands[w], c) && answersTo(ret.commands[w], w)))
+//@   ensures[C07,C08] longOK(old(ret.longNames)) ==> longOK(ret.longNames)
+//@   ensures[C07,C08] shortOK(old(ret.shortNames)) ==> shortOK(ret.shortNames)
+//@   ensures[C07,C08] forall(k, string, ret.longNames[k] == old(ret.longNames)[k] || optionOf(ret.longNames[k], c))
+//@   ensures[C07,C08] forall(k, string, ret.shortNames[k] == old(ret.shortNames)[k] || optionOf(ret.shortNames[k], c))
+//@   ensures[C08] onlyOptions ==> same(ret.commands, old(ret.commands))
+//@   ensures[C08] !onlyOptions ==> forall(w, string, ret.commands[w] == old(ret.commands)[w] || (subOf(ret.commands[w], c) && answersTo(ret.commands[w], w)))
+//@   ensures !isnil(ret.shortNames) && !isnil(ret.longNames) && !isnil(ret.commands)
+//@   assigns ret.shortNames, ret.longNames, ret.commands
+
+//@ pure func parentCmd(c *Command) *Command = ite(is(c.parent, *Command), as(c.parent, *Command), nil)
+//@ assumed func cdepth(c *Command) (d int)
+//@   pure
+//@ axiom manual wf_cmd: forall c *Command :: c != nil ==> cdepth(c) >= 0 && (is(c.parent, *Command) ==> as(c.parent, *Command) != nil && cdepth(as(c.parent, *Command)) < cdepth(c))
+
+// "pure": trusted stability - the structures makeLookup reads (options, groups,
+// names, parents) do not change during a parse, so its result is a function
+// of the receiver.
+//@ func (c *Command) makeLookup() (r lookup)
+//@   props C07 C08 C04
+//@   pure
+//@   requires c != nil && use(wf_cmd, c)
+//@   loop 1 invariant forall(i, 0, len(parents), parents[i] != nil)
+//@   loop 1 invariant is(parent, *Command) ==> as(parent, *Command) != nil && use(wf_cmd, as(parent, *Command))
+//@   loop 1 decreases ite(is(parent, *Command), cdepth(as(parent, *Command)) + 2, ite(parent != nil, 1, 0))
+//@   loop 2 invariant -1 <= i && i < len(parents) && forall(k, 0, len(parents), parents[k] != nil)
+//@   loop 2 invariant !isnil(ret.shortNames) && !isnil(ret.longNames) && !isnil(ret.commands)
+//@   loop 2 invariant longOK(ret.longNames) && shortOK(ret.shortNames)
+//@   loop 2 invariant forall(w, string, ret.commands[w] == nil)
+//@   loop 2 decreases i + 1
+//@   ensures[C07,C08] longOK(r.longNames) && shortOK(r.shortNames)
+//@   ensures[C08] forall(w, string, r.commands[w] != nil ==> subOf(r.commands[w], c) && answersTo(r.commands[w], w))
 //@   assigns nothing
